@@ -5,7 +5,7 @@ from mir import Body, callee_of, op_local, op_place
 from panics import sdesc_operand, sdesc_place, sdesc_local
 import engine, inline
 
-ERR_CTORS = ('<errors::path::PathError>::', '<errors::vfs::VfsError>::')
+ERR_CTORS = ('<errors::path::PathError>::', '<errors::vfs::VfsError>::', '<std::io::Error>::new', '<std::io::Error>::other')
 SCOPE = ('sys::fs::memfs::vfs::Memfs', 'sys::fs::stdfs::Stdfs', 'sys::fs::stdfs::entry::StdfsEntry', 'sys::fs::memfs::entry::MemfsEntry',
          'sys::fs::memfs::entry::MemfsEntryOpts', 'sys::fs::memfs::entry::MemfsEntryIter')
 
@@ -129,6 +129,8 @@ def collect_err_guards(F, cg):
 
 
 def err_guard(rep, F, cg, table, select, rule='ERR-GUARD'):
+    if hasattr(cg, 'prune_never_err'):
+        cg = type(cg)(F)          # frozen instances are compared on unpruned control-flow graphs, as at freeze time
     rep.rule(rule, 'every error exit (PathError / VfsError constructor call) in the selected methods is dominated by exactly the validation facts frozen in '
              'tables/err_guards.json (bool tests with their outcome, Option/Result lookups with their variant, all described structurally): a changed, dropped or '
              'weakened validation changes which states produce which documented error')
@@ -179,6 +181,8 @@ def collect_io(F, cg, impl_self):
 
 
 def io_table(rep, F, cg, table, impl_self='sys::fs::stdfs::Stdfs', rule='IO-TABLE'):
+    if hasattr(cg, 'prune_never_err'):
+        cg = type(cg)(F)          # frozen instances are compared on unpruned control-flow graphs, as at freeze time
     rep.rule(rule, 'every Stdfs function (and its closures) calls exactly the set of OS-level APIs (std::fs, File, OpenOptions, nix, unix::fs, metadata kind queries) '
              'frozen in tables/stdfs_io.json — in particular which of metadata / symlink_metadata (following / not following links) it uses')
     cur = collect_io(F, cg, impl_self)
